@@ -515,6 +515,11 @@ func GenSchedPlan(seed uint64, idx int, prop string) *plan.SchedPlan {
 		p.Data = append(p.Data, DatumSpec{Gen: gens[r.Intn(len(gens))], Seed: r.Uint64() % 1000000})
 	}
 	nObj := r.Range(1, 3)
+	if prop == "C12" && r.Chance(0.12) {
+		// no shared object at all: the callers only create (and then use) their
+		// own evaluators - concurrent first use of whatever the parser shares
+		nObj = 0
+	}
 	base := make([]int, nObj)
 	for i := 0; i < nObj; i++ {
 		o, di := genObj(r, uniq, p.Data, true)
@@ -531,13 +536,18 @@ func GenSchedPlan(seed uint64, idx int, prop string) *plan.SchedPlan {
 		nLocal := 0
 		for len(ops) < n {
 			x := r.Float()
-			oi := r.Intn(nObj)
-			di := base[oi]
-			if r.Chance(0.3) {
-				di = r.Intn(nData)
+			oi, di := -1, r.Intn(nData)
+			if nObj > 0 {
+				oi = r.Intn(nObj)
+				di = base[oi]
+				if r.Chance(0.3) {
+					di = r.Intn(nData)
+				}
+			} else if nLocal == 0 {
+				x = 0.75 // nothing to call yet: create first
 			}
 			op := plan.SOp{Obj: oi, Datum: di}
-			if nLocal > 0 && r.Chance(0.3) {
+			if nLocal > 0 && (nObj == 0 || r.Chance(0.3)) {
 				op.Local = true
 				op.Obj = r.Intn(nLocal)
 				op.Datum = r.Intn(nData)
